@@ -411,14 +411,14 @@ def image_case(draw, arcs=False):
     return case
 
 
-def _perturb_one(draw, cmds2, tol, lo=1.5, hi=5.0):
-    """Move one written coordinate after the first command by lo..hi x tol."""
+def _perturb_one(draw, cmds2, tol, lo=1.05, hi=5.0):
+    """Move one written coordinate after the first command by lo..hi x tol ("slightly more than the tolerance")."""
     idxs = [i for i, (c, a) in enumerate(cmds2) if i > 0 and len(a) > 0]
     i = idxs[draw(st.integers(0, len(idxs) - 1))]
     c, a = cmds2[i]
     js = list(range(len(a))) if c not in "Aa" else [0, 1, 5, 6]
     j = js[draw(st.integers(0, len(js) - 1))]
-    f = draw(st.sampled_from([1.5, 2.0, 3.0, 5.0, -1.5, -2.5, -4.0])) if draw(st.integers(0, 1)) else draw(st.floats(lo, hi)) * draw(st.sampled_from([1, -1]))
+    f = draw(st.sampled_from([1.1, 1.2, 1.3, -1.15, -1.25, 1.5, 2.0, 3.0, 5.0, -1.5, -2.5, -4.0])) if draw(st.integers(0, 1)) else draw(st.floats(lo, hi)) * draw(st.sampled_from([1, -1]))
     out = [[cc, list(aa)] for cc, aa in cmds2]
     out[i][1][j] = out[i][1][j] + f * tol
     return out
